@@ -2,6 +2,8 @@ package rules
 
 import (
 	"fmt"
+	"go/token"
+	"os"
 	"sort"
 	"strings"
 
@@ -166,6 +168,114 @@ func DocFlow(w *load.World, c *core.Collector) {
 				c.Add("DOCFLOW", "deleted-has-no-new-data:"+fk, core.OK, w.At(delPoint), "", props...)
 			}
 		}
+		// ---- skip discipline: a change is dropped (skip == true) only for an id the store does not know,
+		// and never after the point store has been changed
+		notFound := []ssax.Edge{}
+		for _, b := range f.Blocks {
+			ifi, ok := b.Instrs[len(b.Instrs)-1].(*ssa.If)
+			if !ok {
+				continue
+			}
+			bo, ok := ifi.Cond.(*ssa.BinOp)
+			if !ok || (bo.Op != token.EQL && bo.Op != token.NEQ) {
+				continue
+			}
+			isNF := func(v ssa.Value) bool {
+				u, ok := v.(*ssa.UnOp)
+				if !ok {
+					return false
+				}
+				g, ok := u.X.(*ssa.Global)
+				return ok && g.Name() == "ErrPointDoesNotExist"
+			}
+			if isNF(bo.X) || isNF(bo.Y) {
+				e := 0
+				if bo.Op == token.NEQ {
+					e = 1
+				}
+				notFound = append(notFound, ssax.Edge{From: b, Succ: e})
+			}
+		}
+		for _, b := range f.Blocks {
+			if b == f.Recover {
+				continue
+			}
+			ret, ok := b.Instrs[len(b.Instrs)-1].(*ssa.Return)
+			if !ok || len(ret.Results) < 2 {
+				continue
+			}
+			skip, isC := ssax.ConstBool(ssax.ReturnOperand(ret, 1))
+			mayskip := !isC || skip
+			if isC && !skip {
+				continue
+			}
+			if len(ret.Results) >= 3 && nonNilError(ssax.ReturnOperand(ret, 2), b) {
+				continue
+			}
+			_ = mayskip
+			if os.Getenv("SEMA_DEBUG") != "" {
+				fmt.Fprintf(os.Stderr, "DEBUG skip return at %s in %s notFound=%d via=%v\n", w.At(ret), fk, len(notFound), onlyViaAny(notFound, b))
+			}
+			key := "skip-only-unknown:" + fk
+			switch {
+			case onlyViaAny(notFound, b):
+				c.Add("DOCFLOW", key, core.OK, w.At(ret), "", props...)
+			default:
+				c.Add("DOCFLOW", key, core.Violation, w.At(ret), "the closure can drop a change (skip) on a path that is not the \"point does not exist\" branch: a stored point is treated like an unknown id — it is not reported as processed and the indexes never hear of the change", props...)
+			}
+			for _, st := range []*ssa.Call{setPoint, delPoint} {
+				if st != nil && ssax.Reaches(st.Block(), b) && (st.Block() != b || true) && canReachInstr(st, ret) {
+					c.Add("DOCFLOW", "no-skip-after-store:"+fk, core.Violation, w.At(ret), "the point store is changed and the change is then dropped (skip) instead of being handed to the index dispatcher: the indexes keep describing the old document", props...)
+				}
+			}
+		}
+		if setPoint != nil || delPoint != nil {
+			c.Add("DOCFLOW", "no-skip-after-store:"+fk, core.OK, w.Position(f.Pos()), "", props...)
+		}
+		// ---- insert: the existence test and the write happen in the same closure (same storage
+		// transaction): SetPoint only behind the "does not exist" edge of CheckPointExists on the same bucket
+		if setPoint != nil && getPoint == nil {
+			var exists []ssax.Edge
+			for _, b := range f.Blocks {
+				for _, in := range b.Instrs {
+					call, ok := in.(*ssa.Call)
+					if !ok || call.Call.StaticCallee() == nil || load.FnKey(call.Call.StaticCallee()) != "shard/pointstore.CheckPointExists" {
+						continue
+					}
+					pa, _ := ssax.Path(call.Call.Args[0])
+					pb, _ := ssax.Path(setPoint.Call.Args[0])
+					if pa != pb {
+						continue
+					}
+					ex := resultValue(call, 0)
+					if ex == nil {
+						continue
+					}
+					for _, bb := range f.Blocks {
+						ifi, ok := bb.Instrs[len(bb.Instrs)-1].(*ssa.If)
+						if !ok {
+							continue
+						}
+						cond, neg := ifi.Cond, false
+						if u, ok := cond.(*ssa.UnOp); ok && u.Op == token.NOT {
+							cond, neg = u.X, true
+						}
+						if r := ssax.Resolve(cond); len(r) == 1 && r[0].Val == ex && len(r[0].Path) == 0 || cond == ex {
+							e := 1
+							if neg {
+								e = 0
+							}
+							exists = append(exists, ssax.Edge{From: bb, Succ: e})
+						}
+					}
+				}
+			}
+			if onlyViaAny(exists, setPoint.Block()) {
+				c.Add("DOCFLOW", "insert-after-existence-test:"+fk, core.OK, w.At(setPoint), "", "C01")
+			} else {
+				c.Add("DOCFLOW", "insert-after-existence-test:"+fk, core.Violation, w.At(setPoint), "a point is inserted without the closure having tested, on the same bucket and therefore in the same storage transaction, that its id is not stored yet: two batches carrying the same new id can both be accepted", "C01")
+			}
+		}
 		if getPoint != nil {
 			loaded := map[string]ssax.Origin{}
 			if ex := resultValue(getPoint, 0); ex != nil {
@@ -211,4 +321,19 @@ func DocFlow(w *load.World, c *core.Collector) {
 	if n < 3 {
 		c.Add("DOCFLOW", "anchor:closures", core.Undecided, "", fmt.Sprintf("found %d closures that change the point store and report an IndexPointChange, expected 3", n), props...)
 	}
+}
+
+// canReachInstr: instruction b can execute after instruction a.
+func canReachInstr(a, b ssa.Instruction) bool {
+	if a.Block() == b.Block() {
+		if ssax.InstrIndex(a) < ssax.InstrIndex(b) {
+			return true
+		}
+	}
+	for _, s := range a.Block().Succs {
+		if ssax.Reaches(s, b.Block()) {
+			return true
+		}
+	}
+	return false
 }
